@@ -1,0 +1,8 @@
+//go:build !verif
+
+package sm2
+
+import "math/big"
+
+// verifX1 is a verification hook (see verif_hooks.go); without the verif build tag it is the identity.
+func verifX1(x *big.Int) *big.Int { return x }
